@@ -29,7 +29,7 @@ BOUNDS = {"quick": "states at depth <= 1 (full alphabet, capped at 80 states); s
           "thorough": "depth <= 2; ordered pairs of refactorings on depth <= 1 states; statement programs also with a statement before / after the "
                       "block IF and pairs of block IFs"}
 
-START = ["pheno", "pheno_oral", "pheno_linear", "pred_nl"]
+START = ["pheno", "pheno_oral", "pheno_linear", "pred_nl", "pheno_partial_mu"]
 
 
 def refactorings():
